@@ -118,7 +118,12 @@ def run_cond(shard, ctx):
                 M = objs.mat_batch(Dy, Dx, Rc, vi, seed, tag)
                 b = objs.vecn_batch(Dy, Rc, vi, seed, tag)
                 Sy = objs.spd_batch(Dy, Rc, vi, seed, tag, diag="diag" in kind)
-                cond, kw, (M, b, Sy) = objs.mk_cond(kind, M, b, Sy, ctor=ctor)
+                if ctor == "Sigma" and kind != "nncontrol" and vi == 0:
+                    # reached from elsewhere: built with another covariance, used, then update_Sigma
+                    cond, kw, (M, b, _) = objs.mk_cond(kind, M, b, Sy * 2.0, ctor=ctor)
+                    cond.update_Sigma(J(Sy))
+                else:
+                    cond, kw, (M, b, Sy) = objs.mk_cond(kind, M, b, Sy, ctor=ctor)
                 Sq = objs.spd_batch(Dx + Dy, Rq, vi + 1, seed, tag + ("q",))
                 mq = objs.vec_batch(Dx + Dy, Rq, vi + 1, seed, tag + ("q",))
                 q = objs.mk_pdf("GaussianPDF", Sq, mq)
@@ -168,10 +173,18 @@ def run_feature(shard, ctx):
     ns = (8, 12) if Dx == 1 else (7, 10)
     vis = [0, 100] if tier == "quick" else [0, 1, 100, 101]
     for vi in vis:
-        for Rq in (1, 2):
-            if not ctx.case(dict(vi=vi, Rq=Rq)):
+        for Rq, prep in ((1, "fresh"), (2, "fresh"), (1, "updated")):
+            if not ctx.case(dict(vi=vi, Rq=Rq, prep=prep)):
                 continue
             cond = feature_model(shard, vi, seed)
+            if prep == "updated":
+                # used once, then the noise covariance is replaced in place, then used again
+                with ctx.guard("feature.update_Sigma", dict(prep=prep)) as g:
+                    q0 = objs.mk_pdf("GaussianPDF", objs.spd_batch(Dx + Dy, 1, vi + 1, seed, ("c14f0",)), objs.vec_batch(Dx + Dy, 1, vi + 1, seed, ("c14f0",)) * 0.5)
+                    cond.integrate_log_conditional(q0)
+                    cond.update_Sigma(J(objs.spd_batch(Dy, 1, vi + 3, seed, ("c14fS",))))
+                if not g.ok:
+                    continue
             Sy = np.asarray(cond.Sigma)[0]
             Li = np.linalg.inv(Sy)
             const = -0.5 * (np.linalg.slogdet(Sy)[1] + Dy * rm.LN2PI)
@@ -179,7 +192,7 @@ def run_feature(shard, ctx):
             Sq = objs.spd_batch(Dx + Dy, Rq, vi + 1, seed, tag + ("q",))
             mq = objs.vec_batch(Dx + Dy, Rq, vi + 1, seed, tag + ("q",)) * 0.5
             q = objs.mk_pdf("GaussianPDF", Sq, mq)
-            facts = dict(Rq=Rq)
+            facts = dict(Rq=Rq, prep=prep)
 
             def mu_of(X):
                 return np.asarray(cond.condition_on_x(J(X)).mu)
